@@ -31,6 +31,16 @@ def mc(ctx, tier):
     return r
 
 
+def _tests_dir():
+    """src/tests of the repository under test; scratch copies made by
+    bin/mutcheck leave it out, the reference data then come from the
+    unmodified repository"""
+    d = os.path.join(vlib.REPO, "src", "tests")
+    if os.path.exists(os.path.join(d, "compat-V2.vnacal")):
+        return d
+    return os.path.join(os.environ.get("VERIF_BASE_REPO", "/repo"), "src", "tests")
+
+
 def build(ctx):
     lib = vlib.build_lib("san")
     return vlib.build_driver("drv_calfile", SOURCES, lib, ctx.work,
@@ -54,7 +64,7 @@ _NUM = r"[-+]?\d+\.\d+e[-+]\d+"
 
 
 def make_reftable(ctx):
-    src = os.path.join(vlib.REPO, "src", "tests", "test-vnacal-compat-V2.c")
+    src = os.path.join(_tests_dir(), "test-vnacal-compat-V2.c")
     with open(src) as fp:
         text = fp.read()
 
@@ -304,7 +314,7 @@ def run(ctx, exe, tier, seed, cases=None, maxdim=None):
             if i > 5:
                 break
     ref = make_reftable(ctx)
-    v2 = os.path.join(vlib.REPO, "src", "tests", "compat-V2.vnacal")
+    v2 = os.path.join(_tests_dir(), "compat-V2.vnacal")
     rc, out, err = vlib.sh([exe, "count-legacy"])
     nleg = int(out.strip())
     _run_mode(ctx, exe, "legacy versions", "legacy",
@@ -329,7 +339,7 @@ def replay(ctx, exe, path):
         args = ["hist", parts[1], parts[2], str(int(parts[2]) + 1), parts[3]]
     else:
         ref = make_reftable(ctx)
-        v2 = os.path.join(vlib.REPO, "src", "tests", "compat-V2.vnacal")
+        v2 = os.path.join(_tests_dir(), "compat-V2.vnacal")
         args = ["legacy", v2, ref, parts[2], str(int(parts[2]) + 1)]
     tp = os.path.join(ctx.work, "replay.ndjson")
     open(tp, "w").close()
